@@ -178,6 +178,22 @@ static void scenario_calc(Case &c, Draw &d) {
     for (int f = 0; f < 3; f++) { std::vector<std::string> a = base; a.push_back("--cof"); a.push_back(fmt_name[f]); for (auto &x : toks) a.push_back(x); Run q = run_tool(c, "hwloc-calc", a); hwloc_bitmap_t g = hwloc_bitmap_alloc();
       CHECK(c, q.rc == 0 && parse_set(f, first_line(q.out), g) && hwloc_bitmap_isequal(g, E), "calc_formats", "--cof %s prints [%s], which is not the set %s", fmt_name[f], first_line(q.out).substr(0, 200).c_str(), bstr(E).c_str()); hwloc_bitmap_free(g); }
     nt = true; c.cls("calc:rel-formats");
+  } else if (rel == 2 && !nodesets && !hwloc_bitmap_iszero(E) && d.chance(1, 2)) {   // --po --largest fed back with --pi (physical indexes on the output side only)
+    std::vector<std::string> a = base; a.push_back("--po"); a.push_back("--largest"); for (auto &x : toks) a.push_back(x); Run q = run_tool(c, "hwloc-calc", a); CHECK(c, q.rc == 0, "calc_exit", "--po --largest exited with %d", q.rc);
+    std::vector<std::string> back = in.args; back.push_back("--pi"); std::string l = first_line(q.out); size_t p = 0; bool usable = true; hwloc_bitmap_t expect = hwloc_bitmap_alloc();
+    while (p < l.size()) { size_t e = l.find(' ', p); if (e == std::string::npos) e = l.size(); if (e > p) { std::string tk = l.substr(p, e - p); back.push_back(tk); size_t col = tk.find(':'); hwloc_obj_type_t ty; union hwloc_obj_attr_u at;
+        // the relation only holds for objects that have an OS index which is unique within their type ("the first object matching the given index is used")
+        if (col == std::string::npos || hwloc_type_sscanf(tk.substr(0, col).c_str(), &ty, &at, sizeof at) < 0) usable = false;
+        else { unsigned want = (unsigned)strtoul(tk.c_str() + col + 1, NULL, 10); int n = 0; hwloc_obj_t o = NULL, hit = NULL; while ((o = hwloc_get_next_obj_by_type(t, ty, o)) != NULL) if (o->os_index == want) { n++; hit = o; } if (n != 1 || hwloc_get_type_depth(t, ty) == HWLOC_TYPE_DEPTH_MULTIPLE) usable = false; else hwloc_bitmap_or(expect, expect, hit->cpuset); } }
+      p = e + 1; }
+    if (usable && back.size() > in.args.size() + 1) {
+      // what the printed physical indexes designate must be exactly the set (this does not depend on the tool's input side)
+      CHECK(c, hwloc_bitmap_isequal(expect, E), "calc_largest_physical", "--po --largest printed [%s]: the objects with these OS indexes cover %s, the set is %s", l.substr(0, 300).c_str(), bstr(expect).c_str(), bstr(E).c_str());
+      Run q2 = run_tool(c, "hwloc-calc", back); hwloc_bitmap_t g = hwloc_bitmap_alloc();
+      CHECK(c, q2.rc == 0 && parse_set(0, first_line(q2.out), g) && hwloc_bitmap_isequal(g, E), "calc_largest_physical", "--po --largest printed [%s]; fed back with --pi it gives %s instead of %s", l.substr(0, 300).c_str(), first_line(q2.out).substr(0, 100).c_str(), bstr(E).c_str()); hwloc_bitmap_free(g);
+      nt = true; c.cls("calc:rel-largest-physical");
+    } else c.cls("calc:rel-largest-physical(skipped: no or ambiguous OS indexes)");
+    hwloc_bitmap_free(expect);
   } else if (rel == 2 && !nodesets && !hwloc_bitmap_iszero(E)) {   // --largest fed back
     std::vector<std::string> a = base; a.push_back("--largest"); for (auto &x : toks) a.push_back(x); Run q = run_tool(c, "hwloc-calc", a); CHECK(c, q.rc == 0, "calc_exit", "--largest exited with %d", q.rc);
     std::vector<std::string> back = in.args; std::string l = first_line(q.out); size_t p = 0; while (p < l.size()) { size_t e = l.find(' ', p); if (e == std::string::npos) e = l.size(); if (e > p) back.push_back(l.substr(p, e - p)); p = e + 1; }
